@@ -2,7 +2,9 @@
 C03 — forward and inverse transforms of one method undo each other.
 
 proofs : lean/PyAbel/Props/C03.lean (triangular solve ∘ triangular product = id both ways; degree-0 diagonal
-         positivity; matrix-pair round trip)
+         positivity; matrix-pair round trip); lean/PyAbel/Props/C03Bases.lean (Daun degrees 1 and 2 and every rBasex
+         radial matrix P[n] are lower-triangular with positive diagonal at every size — from their Abel-integral
+         theorems in C09 — hence their round trips are exact, every size, every row)
 K      : Lean matrix models vs implementation arrays (harness/methods.corr_operators) + structure facts the theorems
          need, checked on the implementation's own basis arrays: daun degree 0-2 lower-triangular with positive
          diagonal, rbasex P[n] lower-triangular, forward·inverse operator products = identity
@@ -217,17 +219,17 @@ def run(tier):
                       "(order, odd) in 6 combinations x Rmax; approximate class: hansenlaw (hold 0/1), direct, corrected "
                       "basex on Gaussian/bump/ring profiles n in {51,101} (thorough ..301). distinct=(suite, case, size)")
     ck.cov["trusted_base"] = ["Lean 4.33 kernel", "axioms propext/Classical.choice/Quot.sound",
-                              "theorems hold for any lower-triangular basis with non-zero diagonal; that the implementation's "
-                              "daun (deg 0-2) and rbasex bases have that structure is checked on its arrays (K.structure); "
-                              "proved in Lean for degree 0 only",
+                              "theorems hold for any lower-triangular basis with non-zero diagonal; the Lean models of daun "
+                              "(deg 0-2) and of rbasex P[n] are proved to have that structure at every size (the models are tied to the "
+                              "implementation's arrays entrywise in C09 / K.operators; the structure is also checked on the arrays)",
                               "daun degree 3, basex: round trip follows from matrix_pair_roundtrip given G·F = 1, which is "
                               "measured, not proved",
                               "approximate class: limits are 2x the pinned tree's measured error (harness/props/c03.py APPROX)"]
-    ck.cov["unproved_clauses"] = ["diagonal non-vanishing for daun degree 1-2 and rbasex P (checked numerically)",
-                                  "approximate class envelope (measured)"]
+    ck.cov["unproved_clauses"] = ["daun degree 3 and basex: G·F = 1 measured, not proved", "approximate class envelope (measured)"]
     ck.cov["source_fingerprint"] = source_fingerprint(["abel/daun.py", "abel/basex.py", "abel/rbasex.py", "abel/hansenlaw.py",
                                                        "abel/direct.py"])
     ck.proofs("PyAbel.Props.C03")
+    ck.proofs("PyAbel.Props.C03Bases")
     ok, log = ensure_driver()
     if ok:
         corr_operators(ck, tier)
